@@ -390,6 +390,11 @@ func run(ctx *core.Ctx) error {
 	sort.Slice(wirings, func(i, j int) bool { return wirings[i].k < wirings[j].k })
 	ctx.Logf("model wirings: %d terminal states generated by TLC", len(wirings))
 
+	// ---- repetition: nothing survives a call ----
+	if err := repeatPhase(ctx); err != nil {
+		return err
+	}
+
 	// ---- P-A: Pipe rows ----
 	rows, err := genPipeRows(ctx)
 	if err != nil {
@@ -560,6 +565,15 @@ func addExploration(ctx *core.Ctx, pl *plan) error {
 			if name == "cmap-wide" && n > 4 {
 				continue // four structures, selected by n%4
 			}
+			if name == "objstm-offsets" && n == 300 {
+				// (one extreme value per file: sizes 1..13 name them all)
+				for _, m := range []int{9, 10, 11, 12, 13, 31, 32, 33, 34, 35} {
+					for _, cyc := range []bool{false, true} {
+						f := &Family{Name: name, Size: m, Cyc: cyc}
+						pl.add(&Req{Family: f}, "family:"+name, f.key(), nil)
+					}
+				}
+			}
 			if n >= 1000 && (strings.HasPrefix(name, "ladder") || strings.HasPrefix(name, "wide") && n > 1000) {
 				continue
 			}
@@ -687,6 +701,9 @@ func replay(ctx *core.Ctx, raw json.RawMessage) error {
 	var rc replayCase
 	if err := json.Unmarshal(raw, &rc); err != nil {
 		return core.Infra("replay: %v", err)
+	}
+	if rc.Kind == "repeat" {
+		return repeatOne(ctx, rc.Name, rc.Data, 600)
 	}
 	pool, err := newPool()
 	if err != nil {
